@@ -1,1 +1,206 @@
 //! Verification doors: shutdown (cfg(trusttunnel_verif) only)
+//!
+//! * public wrappers of the crate-private `Shutdown::notification_handler` /
+//!   `Shutdown::completion_guard` / `Notification::wait`;
+//! * the participant identity used by the hooks in `shutdown.rs` (a tokio task-local:
+//!   neither `Notification` nor `CompletionGuard` carries an identity of its own);
+//! * the production participants that are cheap to construct - the ping and the speedtest
+//!   session handlers over the real HTTP/2 and HTTP/1.1 codecs on an arbitrary byte stream.
+
+use crate::http_codec::HttpCodec;
+use crate::settings::Settings;
+use crate::shutdown::{self, Shutdown};
+use crate::{http1_codec, http2_codec, http_ping_handler, http_speedtest_handler, log_utils, net_utils};
+use std::future::Future;
+use std::io;
+use std::net::SocketAddr;
+use std::pin::Pin;
+use std::sync::{Arc, Mutex};
+use std::task::{Context, Poll};
+use std::time::Duration;
+use tokio::io::{AsyncRead, AsyncWrite, ReadBuf};
+
+tokio::task_local! {
+    static PARTICIPANT: i64;
+}
+
+/// Identity of the participant the current task (or synchronous scope) acts for; -1 if none
+pub fn current() -> i64 {
+    PARTICIPANT.try_with(|p| *p).unwrap_or(-1)
+}
+
+/// Run `f` as participant `id` (all hook events it causes carry `"p":id`)
+pub async fn as_participant<F: Future>(id: i64, f: F) -> F::Output {
+    PARTICIPANT.scope(id, f).await
+}
+
+/// Synchronous variant of [`as_participant`]
+pub fn as_participant_sync<R>(id: i64, f: impl FnOnce() -> R) -> R {
+    PARTICIPANT.sync_scope(id, f)
+}
+
+/// Hook helper of `Shutdown::completion`: `CompletionBegin` when created, `CompletionEnd`
+/// when [`CompletionScope::end`] is reached, `CompletionCancel` when dropped before that.
+pub struct CompletionScope {
+    armed: bool,
+}
+
+impl CompletionScope {
+    pub fn begin() -> Self {
+        crate::verif_emit!("CompletionBegin");
+        Self { armed: true }
+    }
+
+    pub fn end(&mut self) {
+        self.armed = false;
+        crate::verif_emit!("CompletionEnd");
+    }
+}
+
+impl Drop for CompletionScope {
+    fn drop(&mut self) {
+        if self.armed {
+            crate::verif_emit!("CompletionCancel");
+        }
+    }
+}
+
+/// Outcome of `Notification::wait`
+#[derive(Debug, Clone, Copy, PartialEq, Eq)]
+pub enum WaitOutcome {
+    /// a shutdown was submitted
+    Notified,
+    /// `NotificationError::Closed`
+    Closed,
+}
+
+/// Door for the crate-private `shutdown::Notification`
+pub struct Notification(shutdown::Notification);
+
+/// Door for the crate-private `Option<shutdown::CompletionGuard>`
+pub struct Guard(Option<shutdown::CompletionGuard>);
+
+/// What every participant does first, with the mutex held by the caller:
+/// `(shutdown.notification_handler(), shutdown.completion_guard())`
+pub fn register(shutdown: &Shutdown) -> (Notification, Guard) {
+    let (n, g) = (
+        shutdown.notification_handler(),
+        shutdown.completion_guard(),
+    );
+    (Notification(n), Guard(g))
+}
+
+impl Notification {
+    /// `Notification::wait` (the outcome is logged as `WaitEnd`)
+    pub async fn wait(&mut self) -> WaitOutcome {
+        match self.0.verif_wait().await {
+            Ok(()) => WaitOutcome::Notified,
+            Err(shutdown::NotificationError::Closed) => WaitOutcome::Closed,
+        }
+    }
+
+    /// Messages sent to this receiver and not yet taken (more than 1: the receiver lags)
+    pub fn pending(&self) -> usize {
+        self.0.verif_pending()
+    }
+}
+
+impl Guard {
+    /// `completion_guard()` returned `Some`
+    pub fn is_some(&self) -> bool {
+        self.0.is_some()
+    }
+}
+
+/// Number of live broadcast receivers
+pub fn receiver_count(shutdown: &Shutdown) -> usize {
+    shutdown.verif_receiver_count()
+}
+
+/// `Shutdown` still owns the original completion sender
+pub fn has_original_sender(shutdown: &Shutdown) -> bool {
+    shutdown.verif_has_original_sender()
+}
+
+// ---------------------------------------------------------------------------------------------
+// production participants
+
+/// A byte stream with a fixed peer address (the codecs ask the transport for it)
+pub struct WithPeer<IO> {
+    io: IO,
+    peer: SocketAddr,
+}
+
+impl<IO> net_utils::PeerAddr for WithPeer<IO> {
+    fn peer_addr(&self) -> io::Result<SocketAddr> {
+        Ok(self.peer)
+    }
+}
+
+impl<IO: AsyncRead + Unpin> AsyncRead for WithPeer<IO> {
+    fn poll_read(
+        mut self: Pin<&mut Self>,
+        cx: &mut Context<'_>,
+        buf: &mut ReadBuf<'_>,
+    ) -> Poll<io::Result<()>> {
+        Pin::new(&mut self.io).poll_read(cx, buf)
+    }
+}
+
+impl<IO: AsyncWrite + Unpin> AsyncWrite for WithPeer<IO> {
+    fn poll_write(
+        mut self: Pin<&mut Self>,
+        cx: &mut Context<'_>,
+        buf: &[u8],
+    ) -> Poll<io::Result<usize>> {
+        Pin::new(&mut self.io).poll_write(cx, buf)
+    }
+
+    fn poll_flush(mut self: Pin<&mut Self>, cx: &mut Context<'_>) -> Poll<io::Result<()>> {
+        Pin::new(&mut self.io).poll_flush(cx)
+    }
+
+    fn poll_shutdown(mut self: Pin<&mut Self>, cx: &mut Context<'_>) -> Poll<io::Result<()>> {
+        Pin::new(&mut self.io).poll_shutdown(cx)
+    }
+}
+
+/// Which real session handler to run
+#[derive(Debug, Clone, Copy, PartialEq, Eq)]
+pub enum Service {
+    Ping,
+    Speedtest,
+}
+
+/// Which real codec to put under it
+#[derive(Debug, Clone, Copy, PartialEq, Eq)]
+pub enum Wire {
+    Http1,
+    Http2,
+}
+
+/// Run `http_ping_handler::listen` / `http_speedtest_handler::listen` over the real codec on `io`
+pub async fn serve_session<IO>(
+    shutdown: Arc<Mutex<Shutdown>>,
+    settings: Arc<Settings>,
+    io: IO,
+    peer: SocketAddr,
+    service: Service,
+    wire: Wire,
+    timeout: Duration,
+) -> io::Result<()>
+where
+    IO: AsyncRead + AsyncWrite + Send + Unpin + 'static,
+{
+    let io = WithPeer { io, peer };
+    let id = log_utils::IdChain::empty();
+    let codec: Box<dyn HttpCodec> = match wire {
+        Wire::Http1 => Box::new(http1_codec::Http1Codec::new(settings, io, id.clone())),
+        Wire::Http2 => Box::new(http2_codec::Http2Codec::new(settings, io, id.clone())?),
+    };
+    match service {
+        Service::Ping => http_ping_handler::listen(shutdown, codec, timeout, id).await,
+        Service::Speedtest => http_speedtest_handler::listen(shutdown, codec, timeout, id).await,
+    }
+    Ok(())
+}
